@@ -9,10 +9,17 @@ use darklua_core::verif as hooks;
 
 /// Operand shapes: 0 single-valued leaf, 1 call, 2 `...`, 3 `not x`, 4 `-x`, 5 `#x` (unary
 /// operators over a leaf the evaluator does not know: `not x` may well be `false`).
-fn operand<S: Source>(s: &mut S, slot: usize, shapes: u8) -> (Expression, Child, u8) {
+/// `fixed`: 255 = the shape is symbolic below `shapes`; otherwise a constant of the call site
+/// (scenario trick: keeps the constructed variant concrete).
+fn operand<S: Source>(s: &mut S, slot: usize, shapes: u8, fixed: u8) -> (Expression, Child, u8) {
     let mut child = any_child(s);
-    let shape = s.any_u8();
-    s.assume(shape < shapes);
+    let shape = if fixed == 255 {
+        let shape = s.any_u8();
+        s.assume(shape < shapes);
+        shape
+    } else {
+        fixed
+    };
     if shape >= 3 {
         // the value of the whole operand: unknown to the evaluator; `not x` is a boolean
         child.operand.known = false;
@@ -107,18 +114,33 @@ fn single_table_value(expression: &Expression) -> Option<&Expression> {
     }
 }
 
-/// H-C06-ifexpr-step
+/// H-C06-ifexpr-step: all operand shapes symbolic (heavy: thorough tier).
 pub fn if_branch<S: Source>(s: &mut S) {
-    if_branch_with(s, 2, 3)
+    if_branch_with(s, 2, 255, 3)
 }
-/// Same with leaf condition and else operands (the result operand ranges over all shapes).
-pub fn if_branch_light<S: Source>(s: &mut S) {
-    if_branch_with(s, 1, 1)
+/// One harness per shape of the result operand (constant), leaf condition and else operands.
+pub fn if_branch_result_leaf<S: Source>(s: &mut S) {
+    if_branch_with(s, 1, 0, 1)
 }
-fn if_branch_with<S: Source>(s: &mut S, condition_shapes: u8, else_shapes: u8) {
-    let (condition, _c, c_shape) = operand(s, 0, condition_shapes);
-    let (result, r, r_shape) = operand(s, 1, 6);
-    let (else_result, _e, e_shape) = operand(s, 2, else_shapes);
+pub fn if_branch_result_call<S: Source>(s: &mut S) {
+    if_branch_with(s, 1, 1, 1)
+}
+pub fn if_branch_result_varargs<S: Source>(s: &mut S) {
+    if_branch_with(s, 1, 2, 1)
+}
+pub fn if_branch_result_not<S: Source>(s: &mut S) {
+    if_branch_with(s, 1, 3, 1)
+}
+pub fn if_branch_result_minus<S: Source>(s: &mut S) {
+    if_branch_with(s, 1, 4, 1)
+}
+pub fn if_branch_result_length<S: Source>(s: &mut S) {
+    if_branch_with(s, 1, 5, 1)
+}
+fn if_branch_with<S: Source>(s: &mut S, condition_shapes: u8, result_shape: u8, else_shapes: u8) {
+    let (condition, _c, c_shape) = operand(s, 0, condition_shapes, if condition_shapes == 1 { 0 } else { 255 });
+    let (result, r, r_shape) = operand(s, 1, 6, result_shape);
+    let (else_result, _e, e_shape) = operand(s, 2, else_shapes, if else_shapes == 1 { 0 } else { 255 });
     let shapes = [c_shape, r_shape, e_shape];
     let mut varargs = 0;
     for shape in shapes {
@@ -184,10 +206,8 @@ fn if_branch_with<S: Source>(s: &mut S, condition_shapes: u8, else_shapes: u8) {
         }
         _ => {}
     }
-    witness!(plain, "and/or form chosen");
+    witness!(plain || result_shape != 0 && result_shape != 255, "and/or form chosen");
     witness!(boxed, "boxed form chosen");
-    witness!(boxed && r_shape == 1, "boxed form with a call result");
-    witness!(boxed && r_shape == 3, "boxed form with a `not x` result");
     claim!(s, plain || boxed, "an if-expression branch becomes `c and r or e` or `(c and {r} or {e})[1]`");
     claim!(s, well_formed, "the three operands appear once each, in evaluation order, in their own positions");
     if plain {
@@ -208,13 +228,23 @@ fn c06_if_branch() {
     if_branch(&mut crate::source::KaniSource);
 }
 
-#[cfg(kani)]
-#[kani::proof]
-#[kani::unwind(5)]
-#[kani::stub(darklua_core::process::Evaluator::evaluate, crate::lua::evaluate_stub)]
-fn c06_if_branch_light() {
-    if_branch_light(&mut crate::source::KaniSource);
+macro_rules! if_branch_proof {
+    ($name:ident, $body:ident) => {
+        #[cfg(kani)]
+        #[kani::proof]
+        #[kani::unwind(5)]
+        #[kani::stub(darklua_core::process::Evaluator::evaluate, crate::lua::evaluate_stub)]
+        fn $name() {
+            $body(&mut crate::source::KaniSource);
+        }
+    };
 }
+if_branch_proof!(c06_if_branch_result_leaf, if_branch_result_leaf);
+if_branch_proof!(c06_if_branch_result_call, if_branch_result_call);
+if_branch_proof!(c06_if_branch_result_varargs, if_branch_result_varargs);
+if_branch_proof!(c06_if_branch_result_not, if_branch_result_not);
+if_branch_proof!(c06_if_branch_result_minus, if_branch_result_minus);
+if_branch_proof!(c06_if_branch_result_length, if_branch_result_length);
 
 // ------------------------------------------------------------------------------------------------
 // the whole per-expression step on an elseif chain
